@@ -18,7 +18,7 @@ m = {
     },
     "engines": [
         {"name": "lean-model", "path": "lean/", "serves_properties": sorted(PROPS), "kind_free_text": "Lean 4 executable models (Jrpc/Model), property theorems (Jrpc/Props), tie obligations over regenerated source facts (Jrpc/Tie over Jrpc/Gen), compiled oracle (Main.lean)"},
-        {"name": "go2lean", "path": "tools/go2lean/", "serves_properties": sorted(PROPS), "kind_free_text": "Go->Lean translator / fact extractor: regenerates Jrpc/Gen from /repo on every run"},
+        {"name": "go2lean", "path": "tools/go2lean/", "serves_properties": sorted(PROPS), "kind_free_text": "Go->Lean translator / fact extractor: regenerates Jrpc/Gen from /repo on every run (constants, small functions, picked conditions, structural facts; and whole functions in continuation style: jmessage.parseJSON / toJSON, the ParseQuery typing, Client.deliverLocked, the loop bodies of tasks.responses and Server.filterBatchLocked)"},
         {"name": "harness", "path": "harness/", "serves_properties": sorted(PROPS), "kind_free_text": "Go correspondence harness (built from /repo with -tags verif): runs model oracle and implementation on the same inputs/schedules, evaluates the spec on implementation observations, searches for replays"},
     ],
     "checks": [],
